@@ -396,6 +396,22 @@ def _check(kind, label, build, to_proto, from_proto, norm, vios, stats, exempt=N
     sig = 'C09|second-conversion|%s|%s' % (kind, '+'.join(fields))
     vios.setdefault(sig, {'sig': sig, 'desc': '%s %s: to_proto(from_proto(to_proto(x))) is not identical to to_proto(x):\n%s\n---\n%s' % (kind, label, str(p1)[:400], str(p2)[:400]),
                           'case': {'kind': kind, 'label': label}})
+  _scribble(y)
+
+
+def _scribble(y):
+  """What a caller may do with an object it got back from a conversion: write into it. A decoded object that shares a
+  mutable part with other decoded objects (or with the converter) poisons every later conversion in this process."""
+  try:
+    for md in ([y.metadata] if hasattr(y, 'metadata') else []) + ([y.on_study] + list(y.on_trials.values()) if hasattr(y, 'on_study') else []):
+      md['scribbled-by-an-earlier-caller'] = 'x'
+      md.ns('scribble').ns('')['k'] = 'y'
+    if hasattr(y, 'parameters') and hasattr(y.parameters, '__setitem__'):
+      y.parameters['scribbled_parameter'] = 1.5
+    if hasattr(y, 'measurements') and isinstance(y.measurements, list):
+      y.measurements.append(y.measurements[0] if y.measurements else None)
+  except Exception:  # pylint: disable=broad-except
+    pass
 
 
 def _diff_fields(a, b):
